@@ -78,6 +78,13 @@ func main() {
 				os.Exit(2)
 			}
 			res = runFrameCase(&c)
+		case "chanfree":
+			var c ChanFreeCase
+			if err := json.Unmarshal(b, &c); err != nil {
+				fmt.Fprintf(os.Stderr, "line %d: %v\n", line, err)
+				os.Exit(2)
+			}
+			res = runChanFreeCase(&c)
 		case "tcp":
 			var c TcpCase
 			if err := json.Unmarshal(b, &c); err != nil {
